@@ -269,7 +269,11 @@ class Spinner:
 
     def _restore_signals(self):
         for sig, hdlr in self._saved_signals:
-            signal.signal(sig, hdlr)
+            # getsignal() reports None for a handler that was not installed
+            # from Python; signal.signal() rejects None with a TypeError that
+            # would replace the outcome of run() and skip _clean().
+            if hdlr is not None:
+                signal.signal(sig, hdlr)
         self._saved_signals = []
 
     @not_reentrant
